@@ -401,7 +401,8 @@ Covering(n, mp, kp, cn, v, cx) ==
           /\ mode' = IF \A q \in 1..Len(imap) : Sorted(imap[q]) THEN "raw" ELSE "loose"   \* unsorted: permute_sites (SVD)
           /\ last' = [op |-> "from_product_mps_covering", c |-> <<n, mp, kp, cn, v, cx>>]
           /\ Rec([op |-> "from_product_mps_covering", n |-> n, imap |-> imap, locals |-> lreps, cons |-> cons,
-                  Sbag |-> [b \in 1..(n - 1) |-> CoverBag(lreps, imap, cons, b)]])
+                  \* (unsorted index maps go through permute_sites / SVD: bond values not predicted)
+                  Sbag |-> IF \A q \in 1..Len(imap) : Sorted(imap[q]) THEN [b \in 1..(n - 1) |-> CoverBag(lreps, imap, cons, b)] ELSE <<>>])
 
 \* from_full(sites, psi, form, cutoff, normalize, bc, outer_S) and from_Bflat(sites, Bflat, SVs, bc, form):
 \* routes through SVD / canonical_form -- relation: the result is proportional to the input, its tensors are
